@@ -10,6 +10,8 @@ import Driver.PushFam
 import Driver.BuilderFam
 import Driver.XoFam
 import Driver.MutFam
+import Driver.OpsFam
+import Driver.ResFam
 open Driver
 
 def dispatch (stdin stdout : IO.FS.Stream) (line : String) : IO String := do
@@ -22,6 +24,8 @@ def dispatch (stdin stdout : IO.FS.Stream) (line : String) : IO String := do
   | "lexspec" :: args => pure (SelFam.handleSpec args)
   | "xo" :: args => XoFam.handle stdin stdout args
   | "mut" :: args => MutFam.handle stdin stdout args
+  | "ops" :: args => OpsFam.handle stdin stdout args
+  | "res" :: args => ResFam.handle stdin stdout args
   | "ping" :: _ => pure "pong"
   | _ => pure "bad-family"
 
